@@ -1,0 +1,13 @@
+//go:build verif
+
+package rtmp
+
+// Verification hook for property C15 (inbound traffic of a subscriber). Only built with -tags verif.
+
+// VerifC15RunReadLoop runs what RunLoop runs once the handshake is done: the read loop
+// (chunk composer -> doMsg), then dispose. For a session that VerifC15BecomeSub made a subscriber.
+func (s *ServerSession) VerifC15RunReadLoop() error {
+	err := s.runReadLoop()
+	_ = s.dispose(err)
+	return err
+}
